@@ -956,7 +956,7 @@ pub fn expected_inst(mm: &MethodMeta, args: &[ArgVal], result_id: Option<u32>) -
         }
     }
     ops.extend(tail);
-    Some(dr::Instruction::new(
+    Some(crate::rs::mk_inst(
         op,
         rtype,
         // type methods always carry the (explicit or fresh) id they return, as the builder does
